@@ -69,8 +69,11 @@ def isoQuery (E : BlockCipher) (reg : Registry) (op : String) (args : List Strin
         let (out, arr) := Slice.encryptFRMPayloadMem E k u (BitVec.ofNat 32 a) (BitVec.ofNat 32 c) ⟨d ++ canary, d.length⟩
         "ok " ++ hx out ++ (if arr.drop d.length == canary then " clean" else " DIRTY")
   | "guardfopts" => run args (do let k ← hex; let af ← boolean; let u ← boolean; let a ← nat; let c ← nat; let d ← hex; pure (k, af, u, a, c, d))
-      fun (k, af, u, a, c, d) => match encryptFOpts E k af u (BitVec.ofNat 32 a) (BitVec.ofNat 32 c) d with
-        | .ok o => "ok " ++ hx o ++ " clean" | .err => "ERR" | .panic => "PANIC"
+      fun (k, af, u, a, c, d) =>
+        let canary : Bytes := List.replicate 16 0x5a#8
+        match Slice.encryptFOptsMem E k af u (BitVec.ofNat 32 a) (BitVec.ofNat 32 c) ⟨d ++ canary, d.length⟩ with
+        | (.ok o, arr) => "ok " ++ hx o ++ (if arr.drop d.length == canary then " clean" else " DIRTY")
+        | (.err, _) => "ERR" | (.panic, _) => "PANIC"
   | "reuse_phy" | "reuse_macpl" | "reuse_ja" | "reuse_cfl" | "reuse_app" | "bandiso" => "ok same"
   | "reuse_apppl" => run args (do let p ← AppOps.pkg; let u ← boolean; let c ← nat; pure (p, u, c)) fun (p, u, c) =>
       match App.registry p u c with | some _ => "ok same" | none => "ERR"
